@@ -4,6 +4,8 @@ def n(q, t): return {Q: q, T: t}
 
 FLOAT_TB = "core Lean's claim that compiled Float operations implement Float.Model; bit-level definitions of trunc/fmod/casts/parse/Display in SlacModel/Num.lean tied by the `num` stream"
 
+TIME_FNS = 'date_from_rfc2822,date_from_rfc3339,date_to_rfc2822,date_to_rfc3339,date_to_string,time_to_string,string_to_date,string_to_time,string_to_datetime,inc_month,encode_date,encode_time,year,day_of_week'
+
 PROPS = {
  'C03': dict(
     modules=['SlacProps.C03', 'SlacProps.C03Float', 'SlacProps.C03Source'], translate=True,
@@ -171,8 +173,11 @@ PROPS = {
  'C09': dict(
     modules=['SlacProps.C09'], regen=True, builds=['default', 'checked', 'zero', 'zerochecked'],
     streams=[dict(name='call', build=b, n=n(150, 2500), oracle='none', rust_oracle=True, laws=['no_crash'], case_timeout=20.0) for b in ['default', 'checked', 'zero', 'zerochecked']] +
-            [dict(name='re', n=n(20000, 500000), oracle='none', laws=['no_crash'])],
-    rule='call: every registered builtin x n generated argument lists (7/8 of the documented kinds with boundary magnitudes: NaN, +-inf, +-0, -1, 0.5, 2^53, 2^64, 1e300 as indices/counts/dates/code points; '
+            [dict(name='re', n=n(20000, 500000), oracle='none', laws=['no_crash'])] +
+            # the functions that consult the host's local time zone, run east and west of Greenwich (a zone offset moves values across chrono's limits)
+            [dict(name=f'tz{tag}', gen='call:' + TIME_FNS, build=b, n=n(300, 5000), oracle='none', laws=['no_crash'], tz=tz, case_timeout=20.0)
+             for tag, tz in (('east', 'CET-1CEST,M3.5.0,M10.5.0/3'), ('west', 'EST5EDT,M3.2.0,M11.1.0')) for b in ('default', 'checked')],
+    rule='tzeast/tzwest: the date/time builtins under a local zone east / west of Greenwich with daylight saving (release and overflow-checked builds); call: every registered builtin x n generated argument lists (7/8 of the documented kinds with boundary magnitudes: NaN, +-inf, +-0, -1, 0.5, 2^53, 2^64, 1e300 as indices/counts/dates/code points; '
          'empty and non-ASCII strings; malformed formats and patterns; arrays of 0, 1, 20, 21, 30-300 elements; 1/8 arbitrary kinds and counts 0..5), in worker processes, in 4 builds '
          '(overflow checks on/off x zero_based_strings off/on). The answer is also compared with the model (unmodelled calls are skipped and counted). non-trivial: every case',
     trusted=[FLOAT_TB, 'panics inside chrono / slice::sort / regex-lite, memory and time are visible only to the crash-observing run'],
